@@ -167,6 +167,15 @@ CHECKS["C03"] = dict(_db("c03", 64, 3200, "a memstore-inclusive query depends on
           "disk-only; every run is compared with the schedule-independent reference (so all schedules agree with each other). "
           "non-trivial: >= 3 points"))
 
+_PIN_STAGE = dict(sub="pin", quick=16, thorough=128, shards=4, shard_min=64, shrink=["ops"], seed_salt=31)
+_PIN_RULE = (" Stage pin (Model/Pin.v): histories of insert / FlushAll / scan start / scan continuation / a wait for the remover's 10 s ticker on a real "
+             "database; a scan is held (hook VerifPauseAt) right after rowStore.iterate captured its file store, up to three scans at once, old files are "
+             "really deleted meanwhile; every point carries its index, so a scan's rows say which points it saw: they must be the points the model's scan "
+             "returns, the deleted files must be files the model lets the remover delete, and the model's scans must satisfy the property (with the "
+             "source's structure, translated into gen_iterate_steps, that is a theorem; the corpus holds the schedule that lost a file before 5a97fd2).")
+CHECKS["C03"]["stages"] = CHECKS["C03"]["stages"] + [_PIN_STAGE]
+CHECKS["C03"]["rule"] += _PIN_RULE
+
 CHECKS["C04"] = dict(
     stages=[dict(sub="dbq", mode="c04", quick=48, thorough=2400, shrink=["points", "queries", "flush_after", "reopen_after"], parallel=16, shards=16),
             dict(sub="c05seq", quick=600, thorough=32000, shrink=[["s1", "cells"], ["s2", "cells"]], seed_salt=17)],
@@ -199,6 +208,9 @@ CHECKS["C18"] = dict(
           "them into existing keys and periods, i.e. the in-place update branch), waits for exact quiescence, in half of the cases "
           "forces a flush, and then lets the scan continue; the delivered rows must equal the reference over the points inserted "
           "before the scan. non-trivial: the scan was actually paused with rows still to deliver"))
+
+CHECKS["C18"]["stages"] = CHECKS["C18"]["stages"] + [_PIN_STAGE]
+CHECKS["C18"]["rule"] += _PIN_RULE
 
 CHECKS["C14"] = dict(
     stages=[dict(sub="dbret", quick=64, thorough=3200, shrink=["ops"], parallel=16, shards=16)],
